@@ -90,9 +90,11 @@ def run(ctx):
             for tbb, tt in tries:
                 if tbb in arm.blocks and not nx.dominates(tbb, bb) and tbb in nx.reachable_from(bb, avoid=[h for h in natural_loops(nx)]):
                     later.append(tbb)
-        ok = bool(dom_rep) and not later
+        # (c) the state is never re-armed on a path that can only end in Err (a framing error must leave it Broken)
+        on_err_path = all_paths_err(nx, bb, avoid=[h for h in natural_loops(nx)])
+        ok = bool(dom_rep) and not later and not on_err_path
         ctx.ob('TYPESTATE', 'assign/%s#%d' % (var, sum(1 for b2, s2 in assigns if b2 < bb)), ok, short_loc(s.get('span')),
-               'reader_state = %s: after mem::replace(.., Broken): %s; fallible steps still ahead in this transition: %d' % (var, bool(dom_rep), len(later)))
+               'reader_state = %s: after mem::replace(.., Broken): %s; fallible steps still ahead in this transition: %d; on a path that only returns Err: %s' % (var, bool(dom_rep), len(later), on_err_path))
     ctx.floor('TYPESTATE', 'state re-arm assignments', n, 2)
     # fallible calls between a replace and the re-arm: all `?` => while they run the state is Broken
     for r in state_regions(nx):
@@ -130,6 +132,10 @@ def run(ctx):
     from .c11 import take_rule
     take_rule(ctx)
     checked(ctx, nx)
+    # snappy: the CRC of the decompressed data is compared with the 4 bytes that follow, mismatch => Err (shared with C06)
+    from .c06 import snappy as snappy_rule
+    snappy_rule(ctx)
+    errprop(ctx)
     erronce(ctx)
     loops(ctx, nx)
     panics(ctx)
@@ -225,6 +231,35 @@ def checked(ctx, nx):
         ctx.ob('CHECKED', 'snappy/decompressed-length', ok, short_loc(st.span) if st else None, 'snappy: written != buffer.len() => Err: %s' % ok)
 
 
+ERROR_DISCARDING = ('Result::unwrap_or', 'Result::unwrap_or_default', 'Result::unwrap_or_else', 'Result::ok', 'Result::err',
+                    'Result::or', 'Result::or_else', 'Result::is_ok', 'Result::is_err', 'Result::is_ok_and', 'Result::is_err_and',
+                    'Result::map_or', 'Result::map_or_else', 'Result::iter', 'Result::into_iter')
+ERROR_DISCARDING_REVIEWED = {}   # fn label -> reason; empty on the reviewed tree
+
+
+def errprop(ctx):
+    """an I/O or framing error is never turned into a value in the container reader: no error-discarding Result adaptor
+    (the only way to consume a Result there is `?`, map_err, map, transpose or a match)"""
+    f = ctx.f
+    found = []
+    n = 0
+    for b in f.body_list:
+        fl = fn_label(b)
+        if not (fl.startswith(P) or fl.startswith('<' + P)):
+            continue
+        for bb, t in b.calls():
+            if b.is_cleanup(bb):
+                continue
+            c = strip_generics(cname(t))
+            if 'result::Result::' in c:
+                n += 1
+                if c.endswith(ERROR_DISCARDING) and fl not in ERROR_DISCARDING_REVIEWED:
+                    found.append('%s in %s' % (c.rsplit('::', 1)[1], short_fn(fl)))
+    ctx.ob('ERRPROP', 'no-error-discarding-adaptor', not found, None,
+           'Result adaptors that can swallow an error in the container reader module: %s (of %d Result adaptor calls)' % (found or 'none', n))
+    ctx.floor('ERRPROP', 'Result adaptor calls in the reader module', n, 10)
+
+
 def erronce(ctx):
     f = ctx.f
     b = fn_by_label(f, P + 'Reader::deserialize_seed_next')
@@ -259,17 +294,28 @@ def erronce(ctx):
         brk = [si for si in b.switches_on_adt(RS)]
         # both disjuncts lead to the set block
         io_edge = False
+        io_false = []
         for bb, t in io:
             nm = [(b2, t2) for b2, t2 in b.calls() if cname(t2).endswith('Option::<T>::is_some') and any(c is t for c in origin(b, t2['args'][0]).calls)]
             for b2, t2 in nm:
                 sw = t2.get('target')
                 if sw is not None and b.term(sw)['k'] == 'switch':
-                    io_edge = sbb in b.reachable_from(b.term(sw)['otherwise'], avoid=[x['bb'] for x in b.term(sw)['targets']])
+                    rets = [x for x in b.live_blocks() if b.term(x)['k'] == 'return']
+                    t_edge = b.term(sw)['otherwise']
+                    f_edges = [x['bb'] for x in b.term(sw)['targets']]
+                    # an I/O error alone sets the flag: every path from the is_some()==true edge passes the assignment
+                    io_edge = sbb in b.reachable_from(t_edge, avoid=f_edges) and must_pass(b, t_edge, rets, [sbb])
+                    io_false = f_edges
         brk_edge = False
         for si in brk:
             tb = si['variants'].get('Broken')
             if tb is not None and 'reader_state' in origin(b, si['place']).fields:
-                brk_edge = sbb in b.reachable_from(tb)
+                # a Broken state alone sets it: the state is examined when there is no I/O error, and its Broken edge always
+                # reaches the assignment
+                rets = [x for x in b.live_blocks() if b.term(x)['k'] == 'return']
+                examined = any(si['bb'] in b.reachable_from(fe) for fe in io_false)
+                tb2 = follow_const_bool(b, tb)
+                brk_edge = sbb in b.reachable_from(tb2) and must_pass(b, tb2, rets, [sbb]) and examined
         ok = err_arm and io_edge and brk_edge
         det = 'flag set under Err: %s; when io_error().is_some(): %s; when the state is Broken: %s' % (err_arm, io_edge, brk_edge)
     ctx.ob('ERRONCE', 'flag-set-on-unrecoverable', ok, short_loc(b.span), det)
